@@ -62,6 +62,21 @@ pub fn vx_peer_user(_r: &HyperRequest) -> Option<&UnixUser> { unimplemented!() }
 /// ASSUMED: the derived PartialEq of Token(String) is equality of the strings
 pub assume_specification [<Token as PartialEq>::eq] (a: &Token, b: &Token) -> (r: bool) ensures r == (a.0@ == b.0@);''')
     U.enum(ERR, 'ApiAuthError', keep=['ApiInvalidCredentials'], derive=[])
+    U.outside('''
+pub enum Error { ApiInvalidCredentials(String), VxOther }
+pub type KrillResult<T> = Result<T, Error>;
+impl From<ApiAuthError> for Error { fn from(_e: ApiAuthError) -> Self { unimplemented!() } }
+pub struct LoggedInUser(pub u8);
+impl LoggedInUser { pub fn new(_t: Token, _id: Arc<str>, _role: Arc<str>) -> Self { unimplemented!() } }
+pub fn vx_arc_from_arc(_a: &Arc<str>) -> Arc<str> { unimplemented!() }
+pub fn vx_arc_from_str(_s: &str) -> Arc<str> { unimplemented!() }
+''')
+    U.add('''#[verifier::external_type_specification] pub struct ExError(Error);
+#[verifier::external_type_specification] #[verifier::external_body] pub struct ExLoggedInUser(LoggedInUser);
+pub assume_specification [<Error as From<ApiAuthError>>::from] (e: ApiAuthError) -> (r: Error);
+pub assume_specification [LoggedInUser::new] (t: Token, id: Arc<str>, role: Arc<str>) -> (r: LoggedInUser);
+pub assume_specification [vx_arc_from_arc] (a: &Arc<str>) -> (r: Arc<str>);
+pub assume_specification [vx_arc_from_str] (s: &str) -> (r: Arc<str>);''')
     for c in ['CHACHA20_NONCE_BIT_LEN', 'CHACHA20_NONCE_BYTE_LEN', 'POLY1305_TAG_BIT_LEN', 'POLY1305_TAG_BYTE_LEN', 'CLEARTEXT_PREFIX_LEN']:
         U.free(U.const(CRYPT, None, c))
     U.free(U.const(CRYPT, None, 'UNUSED_AAD', ensures='UNUSED_AAD@.len() == 0'))
@@ -89,5 +104,9 @@ pub broadcast proof fn lemma_subrange_of_subrange<A>(s: Seq<A>, a: int, b: int, 
                  ('wrong_token_is_an_error', 'bearer_of(*request) is Some && bearer_of(*request)->Some_0.0@ != self.required_token.0@ ==> r is Err'),
                  ('no_token_is_nobody', 'bearer_of(*request) is None ==> r is Ok && r->Ok_0 is None'),
              ]),
+        # login hands out the configured token itself: only to a request that already carries it
+        U.fn(ADM, 'AuthProvider', 'login',
+             subst=[('self.user_id.as_ref().into()', 'vx_arc_from_arc(&self.user_id)', 'R14'), ('"admin".into()', 'vx_arc_from_str("admin")', 'R14')],
+             ensures=[('login_only_with_the_admin_token', 'r is Ok ==> bearer_of(*request) is Some && bearer_of(*request)->Some_0.0@ == self.required_token.0@')]),
     ])
     return U
